@@ -159,6 +159,10 @@ def shard_country(arg):
             bad = t.replace(base[5], "-", 1) if base[5] in t else t
             check_text(rec, bad, f"ws-extreme-bad:{label}", full=False)
             rec.case("ws-extreme-invalid", (cc, label, bi, "bad"))
+        if bi == 0 and (cc in ("DE", "FR", "GB", "NO", "LC") or o.countries().index(cc) % 8 == 0):
+            for label, t in dims.content_extremes(base):
+                check_text(rec, t, f"content-extreme:{label}", full=True)
+                rec.case("content-extreme", (cc, label))
         for label, t in dims.token_variants(base, toks):
             check_text(rec, t, f"token:{label}", full=False)
             rec.case(label, t, t if (bi == 0 and cc == "DE" and label == "token-prefix") else None)
@@ -330,4 +334,4 @@ def run(ctx):
                         "argform-userstr", "argform-own-object",
                         "valid", "replace-nonascii", "replace-ascii", "replace-accepted", "pair", "length-trunc",
                         "length-extend", "prefix-accepted", "prefix-rejected", "hyp-near", "hyp-text", "codepoint", "codepoint-ascii-equivalent",
-                        "codepoint-accepted", "valid-formatted-affix", "source-literals")
+                        "codepoint-accepted", "valid-formatted-affix", "source-literals", "content-extreme")
